@@ -118,6 +118,25 @@ def run():
                       f"{recv}.try{step}.A gives {a['events']} {a['end']} but the plain call gives {b['events']} {b['end']}",
                       {"wrapped": a, "plain": b})
     ck.sample({"chain": "".join(STEP[s] for s in cases[-1]["chain"]), "wrapped_events": out[f"w{len(cases) - 1}"]["events"][:6], "plain": out[f"p{len(cases) - 1}"]["end"]})
+    # the same steps through a LIST chain over Either elements: `xs@try@step` wraps every element on its own, so the collected Eithers are
+    # the ones the element-by-element chains give (those are the chains validated against PanEither above)
+    kinds = list(STEP)
+    chains2 = [[a] for a in kinds] + [[a, b] for a in kinds for b in kinds if (kinds.index(a) * 7 + kinds.index(b)) % (1 if thorough else 3) == 0]
+    lreqs = []
+    for k, ch in enumerate(chains2):
+        lst = "".join("@" + STEP[x][1:] for x in ch)
+        sca = "".join(STEP[x] for x in ch)
+        lreqs.append({"id": f"L{k}", "src": PRELUDE + f"xs := [mk(1), mk(2), mk(3)]\nsay(xs@try{lst}@A)"})
+        lreqs.append({"id": f"E{k}", "src": PRELUDE + f"xs := [mk(1), mk(2), mk(3)]\nsay([xs[0].try{sca}.A, xs[1].try{sca}.A, xs[2].try{sca}.A])"})
+    lout = run_cases(lreqs, label="C13 list chains over Eithers")
+    for k, ch in enumerate(chains2):
+        a, b = lout[f"L{k}"], lout[f"E{k}"]
+        last = lambda o: ([e for e in o["events"] if e.startswith("out:[")] or ["<none>"])[-1]
+        comparisons += 1
+        if (last(a), a["end"].split(":")[0]) != (last(b), b["end"].split(":")[0]) or sorted(a["events"]) != sorted(b["events"]):
+            ck.reject(f"C13:list-chain:{'+'.join(ch)}", f"{lreqs[2 * k]['src'].splitlines()[-1]!r} gives {last(a)} / {a['end'][:80]}; element by element the chains give {last(b)} / {b['end'][:80]}",
+                      {"src": lreqs[2 * k]["src"], "elementwise": lreqs[2 * k + 1]["src"], "observed": [a["events"][-3:], a["end"]], "expected": [b["events"][-3:], b["end"]]})
+    ck.cov["list_chain_programs"] = len(chains2)
     ck.cov["evaluations"] = comparisons
     ck.cov["distinct_nontrivial"] = nontrivial
     ck.cov["traces_validated_against_impl"] = 2 * len(cases)
